@@ -9,6 +9,13 @@ TB = ("Trusted base: go/types+go/ssa (x/tools v0.29.0) front end, the govc VC ge
       "assumed contracts of external libraries listed per run in the evidence file. ")
 
 CLAIMS = {
+ "C18": dict(
+   technique="contract-based deductive verification: VCs over go/ssa of the real version gate against assumed axioms of x/mod/semver, SMT",
+   text=("Proof that ValidateVersion implements the truth table of the property for every (B, V): skipped iff no version is declared or the build is not semver; "
+         "for build major 0 accepted iff V has major 0 and the same minor; for major >= 1 iff same major and minor not greater; patch, prerelease and build never appear. "
+         "NewVersionValidator and Version.UnmarshalYAML are under contract too (the latter establishes the type invariant the gate requires)."),
+   note=("semver.IsValid/Major/MajorMinor/Compare are assumed contracts over an abstract parser (svValid, svMaj, svMin; A12, read off semver.go). main.buildVersion (strips a leading v from the linker-provided version) and the wiring of the version into NewDefaultValidator are not under contract. " + TB),
+   design="DESIGN.md section 4 C18"),
  "C06": dict(
    technique="contract-based deductive verification: WP/VC generation over go/ssa of the real existence validators, SMT (z3/cvc5)",
    text=("Proof, for all Output values of any size, that ValidateParamsExist / ValidateServicesExist return nil exactly when every name in every "
